@@ -21,7 +21,7 @@ MANIFEST = {
     "technique": "bounded-exhaustive enumeration of inputs x configurations and of operation histories with a structural invariant on every result",
 }
 MANIFEST["text"] += " " + (
-    'Added after the seeding waves: the index must equal the last lattice column that holds a live emitting candidate (a fact of the lattice, not only of the returned path); traces of length 4 with an outlier in the middle; jump histories match / continue_with_distance / extend on the named graphs.')
+    'Added after the seeding waves: the index must equal the last lattice column that holds a live emitting candidate (a fact of the lattice, not only of the returned path); traces of length 4 with an outlier in the middle; jump histories match / continue_with_distance / extend on the named graphs; the cut-off configurations additionally with the package logger at DEBUG (stopped candidates are then materialised in the lattice).')
 BUDGET = {"quick": 420, "thorough": 3000}
 RULE = ("states = path states inspected, transitions = path steps inspected, traces validated = results compared with the reference "
         "start-candidate rule; non-trivial = the match stopped early, is empty, or contains non-emitting states; outcomes = (index, "
@@ -48,10 +48,20 @@ def cases(tier):
     for c in ps.cases(tier, with_hist=True):
         c["tier"] = tier
         yield c
+    # the same contract with the package logger at DEBUG (candidates that fail a cut-off are then kept as stopped entries,
+    # so "is there a live candidate" and "is the column empty" are different questions), on the configurations that stop early
+    for gs in ms.graph_slice("n3"):
+        if gs[0] == "GENERIC" or tier == "thorough":
+            yield {"kind": "run", "gs": list(gs), "slice": "n3", "T": 3, "tier": tier, "debug": True}
+    for name, pos, g in ms.special_graphs():
+        yield {"kind": "run", "gs": ms.explicit(g), "pos": pos, "slice": "special", "name": name, "tier": tier, "debug": True}
     # after an early stop: jump with continue_with_distance(), then extend - the result must still be aligned
     for hist in ([["M", 9], ["C", None], ["X", 9]], [["M", 9], ["C", 1.0], ["X", 9]]):
         for name, pos, g in ms.special_graphs():
             yield {"kind": "hist", "gs": ms.explicit(g), "pos": pos, "slice": "hist-special", "name": name, "T": 3, "hist": hist, "tier": tier}
+
+
+DEBUG_CFGS = [C(f, ne, True, cut) for f in ms.FAMS for ne in (False, True) for cut in ("md1.5", "mpn0.6", "md2.5i1.1")]
 
 
 def judge(m, r, graph, trace, c, unique, ctx):
@@ -104,6 +114,18 @@ def run_case(case):
     depth = 3 if (case.get("tier") == "thorough" or case.get("slice") == "hist-special") else 2
     # unique=True doubles the runs; in the quick tier it is exercised on the GENERIC alphabet and the named graphs
     uq = (False, True) if (case.get("tier") == "thorough" or ps.pos_of(case) == "GENERIC") else (False,)
+    if case.get("debug"):
+        ms.set_debug(True)
+        try:
+            r = ps.run(case, (lambda sl: DEBUG_CFGS), judge, res, hist_cfgs=HIST, hist_depth=depth, uniques=(False,))
+        finally:
+            ms.set_debug(False)
+        for v in r["v"]:
+            v["case"]["debug"] = True
+            v["msg"] = "[logger at DEBUG] " + v["msg"]
+        for v in r["k"]:
+            v["case"]["debug"] = True
+        return r
     return ps.run(case, cfgs_for, judge, res, hist_cfgs=HIST, hist_depth=depth, uniques=uq)
 
 
